@@ -204,6 +204,62 @@ def main():
                 ck.violation("a guard fails but the file came back different", rep)
                 continue
         enginecheck.report(ck, "c10#%d" % k, pair, o, "sites", m)
+    # ---- part 6: the guards are per file also when the binary walks a directory that mixes packages (external test
+    # packages, package main next to a library, files in other directories): a file is rewritten iff ITS package clause and
+    # imports satisfy the change, whatever the files processed before it were
+    import os, shutil, itertools as _it
+    PKGS = ["p", "p_test", "main", "q"]
+    def dir_case(k):
+        rng = __import__("random").Random(ck.seed * 7919 + k)
+        guard_pkg = rng.choice(PKGS[:3])
+        with_imp = rng.random() < 0.5
+        every = rng.random() < 0.7                 # every change of the run has a package clause
+        patch = "@@\nvar x expression\n@@\n package %s\n%s\n-first(x)\n+second(x)\n" % (guard_pkg, "\n import \"example.com/foo\"\n" if with_imp else "")
+        if not every:
+            patch += "\n@@\nvar x expression\n@@\n-third(x)\n+fourth(x)\n"
+        files = {}
+        names = ["a_first.go", "b.go", "c_test.go", "d.go", "e_test.go", "sub/f.go", "sub/g_test.go"]
+        rng.shuffle(names)
+        for nm in sorted(names[:rng.randint(3, 6)]):
+            pk = rng.choice(PKGS)
+            imp = rng.random() < 0.7
+            files[nm] = "package %s\n\n%sfunc h() {\n\tfirst(1)\n\tthird(2)\n}\n" % (pk, "import \"example.com/foo\"\n\nvar _ = foo.X\n\n" if imp else "")
+        want = {}
+        for nm, src in files.items():
+            ok1 = src.startswith("package %s\n" % guard_pkg) and (not with_imp or "example.com/foo" in src)
+            out = src.replace("first(1)", "second(1)") if ok1 else src
+            if not every:
+                out = out.replace("third(2)", "fourth(2)")
+            want[nm] = out
+        return patch, files, want, {"guard_pkg": guard_pkg, "with_import_guard": with_imp, "every_change_has_package_clause": every}
+    def run_dir(k):
+        patch, files, want, m = dir_case(k)
+        d = vlib.scratch("c10d")
+        try:
+            for nm, src in files.items():
+                os.makedirs(os.path.dirname(os.path.join(d, nm)), exist_ok=True)
+                open(os.path.join(d, nm), "w").write(src)
+            open(os.path.join(d, "p.patch"), "w").write(patch)
+            args = [["./..."], ["."] + (["sub"] if any(n.startswith("sub/") for n in files) else []), sorted(files)][k % 3]
+            rc, so, se = vlib.run_gopatch(["-p", "p.patch"] + args, d)
+            got = {nm: open(os.path.join(d, nm)).read() for nm in files}
+            return patch, files, want, m, args, rc, se.decode("utf-8", "replace"), got
+        finally:
+            shutil.rmtree(d, ignore_errors=True)
+    for k, (patch, files, want, m, args, rc, se, got) in enumerate(vlib.pmap(run_dir, range(240 if thorough else 60))):
+        ck.count(("dir", patch, tuple(sorted(files.items())), tuple(args)), nontrivial=True)
+        ck.tally("part", "directory runs of the binary")
+        rep = {"case": "c10dir#%d" % k, "patch": patch, "files": files, "args": args, "rc": rc, "stderr": se[:400], "meta": m}
+        if rc != 0:
+            ck.violation("directory run fails although every file parses and every guard is decidable: %s" % se[:200], rep)
+            continue
+        for nm in sorted(files):
+            if got[nm].replace(" ", "").replace("\t", "") != want[nm].replace(" ", "").replace("\t", ""):
+                rewritten = got[nm] != files[nm]
+                ck.violation("file %s (package clause %r) of a directory run was %s although its own package clause and imports %s the change"
+                             % (nm, files[nm].split("\n")[0], "rewritten" if rewritten else "left alone",
+                                "do not satisfy" if rewritten and want[nm] == files[nm] else "satisfy"), dict(rep, file=nm, got=got[nm], want=want[nm]))
+                break
     ck.sample({"patch": pairs[200][1].decode(), "file": pairs[200][3].decode(), "meta": metas[200]})
     ck.sample({"patch": pairs[-20][1].decode(), "file": pairs[-20][3].decode(), "meta": metas[-20]})
     ck.cov["rule"] = ("enumerated table: patch-side import forms {absent, unnamed, named as the base, named otherwise, identifier metavariable, dot, "
